@@ -56,6 +56,13 @@ def program(ta, tb):
         L.append(f"try {{ !truth_is_defeat(a {op} b); write('n'); }} undo {{ write('d'); }}")
         L.append(f"try {{ !truth_is_defeat(a {op} b); write('n'); }} stop {{ write('d'); }}")
         L.append(f"try {{ !d(a {op} b); write('n'); }} undo {{ write('d'); }}")
+    # the comparison decides between continuing and defeat: the guard on the taken side must be exact
+    for op in CMP:
+        L.append(f"try {{ if (a {op} b) {{ write('T'); }} else {{ !is_defeat(); }} }} undo {{ write('U'); }}")
+        L.append(f"try {{ if (a {op} b) {{ !is_defeat(); }} else {{ write('F'); }} }} undo {{ write('U'); }}")
+        L.append(f"try {{ bool v = a {op} b; !truth_is_defeat(not v); write('t'); }} undo {{ write('u'); }}")
+        L.append(f"try {{ int k = 0; while (a {op} b) {{ k += 1; !truth_is_defeat(k > 1); }} write('w'); }} undo {{ write('u'); }}")
+    L.append('writeln();')
     conds = ['a is bool', 'not (a is bool)', 'p and q', 'p or q', 'not p', 'p == q', '(a < b) or (b < a)', 'p']
     if ta == 'int':
         conds += ['(a is byte) is bool', 'not (a is byte)', '(a is byte) or (b is byte)']
@@ -122,6 +129,13 @@ def expected(ta, tb, a, b, W):
         d.append(b'd' if c else b'n')
         d.append(b'd' if c else b'n')
         d.append(b'd' if c else b'()n')
+    for op in CMP:
+        c = cm[op]
+        d.append(b'T' if c else b'U')
+        d.append(b'U' if c else b'F')
+        d.append(b't' if c else b'u')
+        d.append(b'u' if c else b'w')
+    d.append(b'\n')
     dc = [p, not p, p and q, p or q, not p, p == q, a != b, p]
     if ta == 'int':
         lb = (a & 0xFF) != 0
